@@ -1387,6 +1387,36 @@ impl Session {
     }
 }
 
+/// Read-only observers for the verification harness (feature `verif`).
+#[cfg(feature = "verif")]
+impl Session {
+    /// Sorted keys of the `streams` table and of the `stream_receive_tx` table.
+    pub async fn verif_table_keys(&self) -> (Vec<u32>, Vec<u32>) {
+        let mut a: Vec<u32> = self.streams.read().await.keys().copied().collect();
+        let mut b: Vec<u32> = self.stream_receive_tx.read().await.keys().copied().collect();
+        a.sort_unstable();
+        b.sort_unstable();
+        (a, b)
+    }
+
+    /// Current value of the packet counter.
+    pub fn verif_pkt_counter(&self) -> u32 {
+        self.pkt_counter.load(std::sync::atomic::Ordering::SeqCst)
+    }
+
+    /// Whether frames are currently buffered, and how many bytes wait in the buffer.
+    pub async fn verif_buffer_state(&self) -> (bool, usize) {
+        let buffering = self.buffering.load(std::sync::atomic::Ordering::Relaxed);
+        (buffering, self.buffer.lock().await.len())
+    }
+
+    /// md5 and raw text of the padding scheme currently used by this session.
+    pub async fn verif_padding(&self) -> (String, Vec<u8>) {
+        let p = self.padding.read().await;
+        (p.md5().to_string(), p.raw_scheme().to_vec())
+    }
+}
+
 #[cfg(test)]
 mod tests {
     use super::*;
